@@ -30,7 +30,7 @@ func ms(t time.Time) time.Time { return t.Truncate(time.Millisecond) }
 
 func TestIngestionContract(t *testing.T) {
 	run := vf.Cur()
-	sub := run.Sub("ingestion-contract", "per case a real app in virtual time (resolve_timeout 1m/5m, alert GC every 1m/7m/30m), 2-4 label sets, 10-40 steps: POST /api/v2/alerts batches mixing valid alerts (with/without startsAt/endsAt, overlapping, disjoint, out of order, end in the past, re-fire, empty-valued labels) with invalid ones (empty label set, empty label name, end before start), clock advances across ends and GC ticks, GET /api/v2/alerts probes; oracle = reference model of docs/alerts_api.md + the statement (response 200/400, valid siblings stored, defaulted times, earliest start on overlap, immediate resolution, visibility == end not passed, receivers == reference routing, never missing while firing across GC); where the statement leaves the merged end open both outcomes are admitted; non-trivial = >=1 merge of overlapping submissions and >=1 visible alert compared; distinct by (seed)", 100)
+	sub := run.Sub("ingestion-contract", "per case a real app in virtual time (resolve_timeout 1m/5m, alert GC every 1m/7m/30m), 2-4 label sets, 10-40 steps: POST /api/v2/alerts batches mixing valid alerts (with/without startsAt/endsAt, overlapping, disjoint, out of order, end in the past, re-fire, empty-valued labels) with invalid ones (empty label set, empty label name, end before start), one batch listing an alert twice (firing, then with an end in the past), clock advances across ends and GC ticks, GET /api/v2/alerts probes; oracle = reference model of docs/alerts_api.md + the statement (response 200/400, valid siblings stored, defaulted times, earliest start on overlap, immediate resolution, visibility == end not passed, receivers == reference routing, never missing while firing across GC); where the statement leaves the merged end open both outcomes are admitted; non-trivial = >=1 merge of overlapping submissions and >=1 visible alert compared; distinct by (seed)", 100)
 	n := run.N(600, 60000)
 	vf.Parallel(t, n, 16, func(t *testing.T, i int) {
 		r := sub.Rand(i)
@@ -249,6 +249,27 @@ func TestIngestionContract(t *testing.T) {
 						fail("post-status-differs", map[string]any{"got": code, "want": want, "response": resp})
 						return
 					}
+					advance(time.Millisecond)
+				case k == 9 && r.Intn(2) == 0:
+					// one batch listing the same label set twice, in submission order: firing (started earlier,
+					// no end), then with an explicit end in the past - "an explicit end in the past resolves the
+					// alert immediately"; both carry the same receive time
+					now := time.Now()
+					l := gen.Pick(r, lsets).Clone()
+					st := now.Add(-gen.Pick(r, []time.Duration{10 * time.Minute, 90 * time.Second}))
+					en := now.Add(-gen.Pick(r, []time.Duration{2 * time.Second, 30 * time.Second}))
+					ver += 2
+					a1 := sim.PostableAlert{Labels: l, Annotations: model.Labels{"v": fmt.Sprint(ver - 1)}, StartsAt: &st}
+					a2 := sim.PostableAlert{Labels: l, Annotations: model.Labels{"v": fmt.Sprint(ver)}, StartsAt: &st, EndsAt: &en}
+					book.Post(model.AlertPost{T: now, Labels: l, Annotations: a1.Annotations, Start: &st})
+					book.Post(model.AlertPost{T: now, Labels: l, Annotations: a2.Annotations, Start: &st, End: &en})
+					code, resp := in.PostAlerts(a1, a2)
+					note("POST one batch [%s firing since %v, same alert ended %v] -> %d", l.Key(), offs(&st, now), offs(&en, now), code)
+					if code != 200 {
+						fail("post-status-differs", map[string]any{"got": code, "want": 200, "response": resp})
+						return
+					}
+					sub.Count("fire_then_resolve_in_one_batch", 1)
 					advance(time.Millisecond)
 				case k < 8:
 					d := gen.Pick(r, []time.Duration{time.Second, 35 * time.Second, 90 * time.Second, 6 * time.Minute, 31 * time.Minute})
